@@ -31,6 +31,11 @@ def refdict(doc):
 
 def _obj(obj):
     d = OrderedDict()
+    if "kvroot" in obj:
+        for a, b in obj["kvroot"]:
+            d[a.lower()] = b
+        d["__type__"] = obj["t"]
+        return d
     d["__type__"] = obj["t"]
     for it in obj["items"]:
         kind = it[0]
